@@ -17,7 +17,7 @@ func init() {
 		DoesNotCover: "That every id a deletion function receives at run time is unreferenced (a property of histories) is not decided; crash points are not enumerated (C08).",
 	}, runC10)
 	register("C11", propMeta{
-		Explanation:  "Decides that every artifact class a transaction stages has an undo and that logs are removed on every terminal path: (R1) the undo table (shared with C07.R1): every persistent commit step has a guarded undo block calling the matching undo function in the live rollback and in the dead-transaction log replay; (R2) partial steps (shared with C07.R2); (R3) transaction logs are removed on every terminal path - rollback, cleanup, log replay (shared with C07.R4) - and the priority log is removed after a successful commit and by the live rollback once it may have been written; (R4) obsolete data is actually handed to deletion after a commit: cleanup passes getToBeObsoleteEntries() to deleteObsoleteEntries and getObsoleteTrackedItemsValues() to deleteTrackedItemsValues, and the functions that only BUILD log payloads do not consume the deletion queue that a later step reads. (R5) Undo discoverability, derived from the undo functions: rollbackUpdatedNodes finds the blobs it deletes through the inactive ids recorded in the registry, so commitUpdatedNodes must record them in the registry before, and only if that succeeded then, write the blobs. (R6) every step is announced (logged) before it acts, on first and repeated execution (shared with C08.R1): the rollback decides from the announced step whether the previous step's artifacts must be removed. (R7) a removed item's value blob is queued for deletion whatever its fetch state (known finding F39a); (R8) the deletion queue is not cleared by the log-payload getters (known finding F39b, shared with C07.R11).",
+		Explanation:  "Decides that every artifact class a transaction stages has an undo and that logs are removed on every terminal path: (R1) the undo table (shared with C07.R1): every persistent commit step has a guarded undo block calling the matching undo function in the live rollback and in the dead-transaction log replay; (R2) partial steps (shared with C07.R2); (R3) transaction logs are removed on every terminal path - rollback, cleanup, log replay (shared with C07.R4) - and the priority log is removed after a successful commit and by the live rollback once it may have been written; (R4) obsolete data is actually handed to deletion after a commit: cleanup passes getToBeObsoleteEntries() to deleteObsoleteEntries and getObsoleteTrackedItemsValues() to deleteTrackedItemsValues, and the functions that only BUILD log payloads do not consume the deletion queue that a later step reads. (R5) Undo discoverability, derived from the undo functions: rollbackUpdatedNodes finds the blobs it deletes through the inactive ids recorded in the registry, so commitUpdatedNodes must record them in the registry before, and only if that succeeded then, write the blobs. (R6) every step is announced (logged) before it acts, on first and repeated execution (shared with C08.R1): the rollback decides from the announced step whether the previous step's artifacts must be removed. (R7) a removed item's value blob is queued for deletion whatever its fetch state (known finding F39a); (R8) the deletion queue is not cleared by the log-payload getters (known finding F39b, shared with C07.R11). (R9) the file-system blob stores' Remove (plain and erasure coded) never leaves its loops over tables, blobs and drives early - no break, no success return inside them - so every shard of a removed blob is visited.",
 		DoesNotCover: "Comparing the blob store / registry contents with the reachable set is a runtime matter and is not decided.",
 	}, runC11)
 }
@@ -448,6 +448,83 @@ func runC11(c *Ctx) {
 	}
 	r8 := c.Rule("R8", "the queue of replaced / removed value blobs survives until the post-commit cleanup: the getters phase1Commit calls to build log payloads do not clear it (shared with C07.R11)", 3)
 	payloadPurityRule(c, r8)
+	r9 := c.Rule("R9", "a blob handed to BlobStore.Remove is removed completely: in the file-system blob stores' Remove the loops over tables, blobs and (erasure coding) drives are never cut short - no `break` out of them and no success return from inside them - so a missing first shard does not leave the other drives' shards behind", 4)
+	{
+		n := 0
+		for _, k := range []string{"fs.blobStore.Remove", "fs.BlobStoreWithEC.Remove"} {
+			f := w.Fn(k)
+			g := w.G(f)
+			c.Analysed(f)
+			var loops []ast.Stmt
+			var breaks []*ast.BranchStmt
+			var visit func(x ast.Node, inLoop bool)
+			visit = func(x ast.Node, inLoop bool) {
+				ast.Inspect(x, func(y ast.Node) bool {
+					switch st := y.(type) {
+					case *ast.FuncLit:
+						return false
+					case *ast.RangeStmt:
+						if y != x {
+							loops = append(loops, st)
+							visit(st.Body, true)
+							return false
+						}
+					case *ast.ForStmt:
+						if y != x {
+							loops = append(loops, st)
+							visit(st.Body, true)
+							return false
+						}
+					case *ast.SwitchStmt, *ast.TypeSwitchStmt, *ast.SelectStmt:
+						// an unlabeled break inside these leaves the switch, not the loop
+						if y != x {
+							ast.Inspect(y, func(z ast.Node) bool {
+								if _, ok := z.(*ast.FuncLit); ok {
+									return false
+								}
+								if b, ok := z.(*ast.BranchStmt); ok && (b.Tok == token.GOTO || (b.Tok == token.BREAK && b.Label != nil)) && inLoop {
+									breaks = append(breaks, b)
+								}
+								return true
+							})
+							return false
+						}
+					case *ast.BranchStmt:
+						if inLoop && (st.Tok == token.BREAK || st.Tok == token.GOTO) {
+							breaks = append(breaks, st)
+						}
+					}
+					return true
+				})
+			}
+			visit(f.Body, false)
+			n += len(loops)
+			pos := f.Decl.Pos()
+			if len(breaks) > 0 {
+				pos = breaks[0].Pos()
+			}
+			c.Check(len(breaks) == 0, r9, shortKey(k)+": no loop over the blobs / drives is left early", pos, fmt.Sprintf("%d loops, no break", len(loops)),
+				"a `break` leaves a loop of Remove before every blob / shard was visited: shard files of a removed blob stay on the remaining drives (e.g. when the shard on the first drive is missing because that drive rejected the write the erasure coding tolerated), referenced by nothing and recorded in no log", nil)
+			// success returns from inside a loop
+			var early []*GNode
+			for _, x := range g.Nodes {
+				if x.Ret == nil || g.ClassifyReturn(x) != RetNil {
+					continue
+				}
+				for _, l := range loops {
+					if l.Pos() <= x.Ret.Pos() && x.Ret.End() <= l.End() {
+						early = append(early, x)
+						break
+					}
+				}
+			}
+			if len(early) > 0 {
+				pos = early[0].Ret.Pos()
+			}
+			c.Check(len(early) == 0, r9, shortKey(k)+": no success return from inside the loops", pos, "only error returns inside the loops", "Remove can return nil from inside its loops, leaving the remaining blobs / shards on disk", nil)
+		}
+		c.Check(n >= 5, r9, "loops of the blob stores' Remove inventoried", token.NoPos, fmt.Sprintf("%d loops", n), fmt.Sprintf("only %d loops (2 in blobStore.Remove, 3 in BlobStoreWithEC.Remove known)", n), nil)
+	}
 	r6 := c.Rule("R6", "every step is announced before it acts: the live rollback decides from the announced step whether the PREVIOUS step's artifacts (staged blobs, reserved ids) must be removed (`committedState > previous`), so a step that is announced only after it succeeded makes its own failure skip the previous step's undo (shared with C08.R1)", 16)
 	logBeforeActRule(c, r6, logActSteps)
 	r5 := c.Rule("R5", "what an undo function must look up in the registry is recorded there before the data it leads to is written: rollbackUpdatedNodes finds the staged blobs through the inactive ids of the registry handles, so commitUpdatedNodes writes the reservation before (and only if it succeeded, then) the blobs (derived; shared with C03.R1 / C37.R2)", 3)
